@@ -276,7 +276,45 @@ def run(ctx):
     # ---------------------------------------------------------------- F4: footprint over many iterations
     iters = 3000 if ctx.thorough else 300
     fp_cases = []
+    # Stage 1 (before any long series is even generated): the same build followed by reset, 10 times, for EVERY reset variant; the
+    # footprint at the allocator level (sum of iov_len of B->buffers, emitter capacity and live pages, refmap buckets) after the
+    # k-th reset must not exceed the footprint after the FIRST reset of the same build.  A body that grows is reported with a replay
+    # cut at the first growth and gets no long series (nothing is left to eat memory).
+    fp_growing = set()
+    def stage1(bodies):
+        lines, meta_ = [], []
+        for klass, body in bodies:
+            for rv in RESET_VARIANTS:
+                sc = Script()
+                for it in range(10):
+                    sc.extend(Script(body)); sc.emit(rv); sc.emit('snap')
+                lines.append('cfg:0:0 ' + ' '.join(sc.ops)); meta_.append((klass, body, rv, sc.ops))
+        reps = lib.run_harness_resilient(H, lines, timeout=600)
+        ctx.log('footprint stage 1: %d short series' % len(lines))
+        for (klass, body, rv, ops_), rep, l in zip(meta_, reps, lines):
+            ctx.count(l, klass='footprint_stage1')
+            if 'CRASH' in rep:
+                fp_growing.add(klass)
+                ctx.violation('crash:footprint:' + klass, 'footprint series of `%s` with %s: %s' % (klass, rv, rep[:300]), {'harness_line': l}); continue
+            snaps = [parse_snap(t) for t in rep.split() if t.startswith('{')]
+            if not snaps: continue
+            def fp(x): return {**{f: int(x[f]) for f in CAP_FIELDS}, 'e_cap': int(x['e_cap']), 'e_live_pages': max(0, int(x.get('e_live', 0))) // 1000,
+                               'rm_buckets': int(x.get('rm_buckets', 0))}
+            f1 = fp(snaps[0])
+            for k in range(1, len(snaps)):
+                fk = fp(snaps[k])
+                grown = [f for f in fk if fk[f] > f1[f]]
+                if grown:
+                    f = grown[0]
+                    fp_growing.add(klass)
+                    key = {'c_us': 'user-frame-leak', 'c_ds': 'ds-first-leak'}.get(f, 'footprint-growth:' + f) if rv.endswith(':0') else 'footprint-growth-reducing-reset:' + f
+                    cut = [j for j, t in enumerate(ops_) if t == 'snap'][k]
+                    ctx.violation(key, 'footprint after reset grows with the number of earlier builds: `%s` with %s: %s is %d after the first and %d after reset %d '
+                                       '(total %d -> %d bytes)' % (klass, rv, f, f1[f], fk[f], k + 1, sum(f1[x] for x in CAP_FIELDS), sum(fk[x] for x in CAP_FIELDS)),
+                                  {'harness_line': 'cfg:0:0 ' + ' '.join(ops_[:cut + 1]), 'class': klass, 'reset': rv, 'field': f, 'after_first_reset': f1, 'after_reset_%d' % (k + 1): fk})
+                    break
     def add_fp(klass, body_ops, model, reset_tok='rs:0:0', n=iters, cfg='0:0'):
+        if klass in fp_growing: return
         s = Script()
         marks = {}
         for it in range(n):
@@ -285,6 +323,14 @@ def run(ctx):
                 marks[it + 1] = s.emit('snap')
         c = Case('footprint:' + klass, s.ops, model, cfg, {'marks': marks, 'n': n})
         cases.append(c); fp_cases.append(c)
+    nested_ab = ['sb:0:0:0', 'st:3', 'ta:0:4:4:01000000', 'ta:1:4:4:02000000', 'st:3']
+    stage1([('abandoned_user_frame', ['sb:0:0:0', 'st:4', 'uf:100']), ('abandoned_nested_table', nested_ab), ('abandoned_nested_table_reduce', nested_ab),
+            ('completed_build', refs[-1][1].ops), ('completed_build_reduce', refs[0][1].ops), ('deep_abandoned', deep.ops),
+            ('cache_limited', ['vl:16'] + refs[-1][1].ops), ('failed_json_union', ['jp:%s:0' % hx(docs[1].encode()[:len(docs[1]) * 2 // 3])]),
+            ('failed_json_union_vector', ['jr:%s:0' % hx(docs[3].encode()[:len(docs[3]) * 3 // 4])]),
+            ('failed_json_deep', ['jp:%s:0' % hx(docs[7].encode()[:len(docs[7]) - 12])]), ('completed_json', ['jr:%s:0' % hx(docs[5].encode())]),
+            ('big_vector', ['sb:0:0:0', 'st:1', 'cv:%s:5000:1:1:4294967295' % ('77' * 5000), 'to:0:$2', 'et', 'eb:$4']),
+            ('refmap_clone', ['rm:1', 'ri:500', 'sb:0:0:0', 'st:2'])])
     add_fp('abandoned_user_frame', ['sb:0:0:0', 'st:4', 'uf:100'], True)
     add_fp('abandoned_nested_table', ['sb:0:0:0', 'st:3', 'ta:0:4:4:01000000', 'ta:1:4:4:02000000', 'st:3'], True)
     add_fp('abandoned_nested_table_reduce', ['sb:0:0:0', 'st:3', 'ta:0:4:4:01000000', 'ta:1:4:4:02000000', 'st:3'], True, 'rs:0:1')
@@ -298,6 +344,7 @@ def run(ctx):
     add_fp('completed_json', ['jp:%s:0' % hx(docs[5].encode())], False)
     # the emitter's pool must trim: one build of several pages, then many small builds (the usage average decays below half the capacity)
     def add_pool(klass, big_bytes, small_ops, n, reset_tok='rs:0:0', cfg='0:0'):
+        if fp_growing: return      # stage 1 found a growing footprint: no long series with many resets
         s = Script(); marks = {}
         s.extend(Script(['sb:0:0:0', 'st:1', 'cv:%s:%d:1:1:4294967295' % ('5a' * big_bytes, big_bytes), 'to:0:$2', 'et', 'eb:$4'])); s.emit(reset_tok); s.emit('snap')
         for it in range(n):
@@ -316,7 +363,7 @@ def run(ctx):
     # random mixture
     gm = Gen(random.Random(ctx.seed * 7 + 1), max_depth=4)
     mix = Script()
-    for it in range(iters // 3):
+    for it in range(0 if fp_growing else iters // 3):
         bs = gm.build(root='table')
         if it % 2: bs = Script(bs.ops[:random.Random(it).randint(1, len(bs.ops))])
         mix.extend(bs); mix.emit(RESET_VARIANTS[it % 4])
@@ -484,6 +531,50 @@ def run(ctx):
                  'so', 'xo:$4,$8', 'eo', 'st:1', 'to:0:$11', 'et', 'eb:$14']):
         s = Script(); s.extend(Script(ops)); s.emit('nvt'); s.emit('evs')
         nvt_cases.append(Case('vtable_once', s.ops, True, '1:1'))
+    # the same vtable shapes used in the parent, in a nested buffer, in the parent again, in sibling and doubly nested buffers
+    SHAPES = [['ta:0:4:4:%s'], ['ta:1:2:2:%s'], ['ta:0:4:4:%s', 'ta:2:4:4:%s'], []]
+    def shape_table(s, sh, count=3):
+        s.emit('st:%d' % count)
+        for f in SHAPES[sh]:
+            n = int(f.split(':')[2]); s.emit(f % ('11' * n))
+        return s.emit('et')
+    def wrap(s, refs_):
+        s.emit('so'); s.emit('xo:' + ','.join('$%d' % k for k in refs_)); v = s.emit('eo')
+        s.emit('st:4'); s.emit('to:3:$%d' % v); return s.emit('et')
+    def nested(s, shapes, inner=None):
+        s.emit('sb:0:0:0')
+        ks = [shape_table(s, sh) for sh in shapes]
+        if inner is not None: ks.append(inner(s))
+        r = wrap(s, ks)
+        nb = s.emit('eb:$%d' % r)
+        s.emit('st:4'); s.emit('to:1:$%d' % nb); return s.emit('et')      # the nested buffer sits in a table field
+    def interleave(plan, settings=()):
+        s = Script(list(settings)); s.emit('sb:0:0:0'); ks = []
+        for item in plan:
+            if isinstance(item, int): ks.append(shape_table(s, item))
+            elif item[0] == 'N': ks.append(nested(s, item[1]))
+            else: ks.append(nested(s, item[1], inner=lambda s_, it=item: nested(s_, it[2])))
+        r = wrap(s, ks); s.emit('eb:$%d' % r); s.emit('nvt'); s.emit('evb')
+        return s
+    plans = [[0, ('N', [0]), 0], [0, 1, ('N', [0, 1]), 0, 1, ('N', [1, 0]), 1, 0], [('N', [0]), 0, ('N', [0]), 0],
+             [2, ('NN', [2, 0], [0, 2]), 2, 0, ('N', [2]), 2], [3, ('N', [3, 3]), 3, 0, 0, ('NN', [0], [0]), 0]]
+    rngp = random.Random(ctx.seed * 13 + 5)
+    for _ in range(60 if ctx.thorough else 10):
+        pl = []
+        for _ in range(rngp.randint(3, 9)):
+            x = rngp.random()
+            if x < 0.5: pl.append(rngp.randint(0, 3))
+            elif x < 0.85: pl.append(('N', [rngp.randint(0, 3) for _ in range(rngp.randint(1, 3))]))
+            else: pl.append(('NN', [rngp.randint(0, 3) for _ in range(rngp.randint(1, 2))], [rngp.randint(0, 3) for _ in range(rngp.randint(1, 2))]))
+        plans.append(pl)
+    for pi, pl in enumerate(plans):
+        for st_ in ([], ['cl:0']) if pi < 5 or pi % 3 == 0 else ([],):
+            nvt_cases.append(Case('vtable_once_nested', interleave(pl, st_).ops, True, '1:1'))
+        # and after a reset that followed a build using the same shapes
+        if pi < 5:
+            pre = interleave(pl).ops[:-2]
+            s2 = Script(pre[:len(pre) // 2]); s2.emit('rs:0:%d' % (pi % 2)); s2.extend(Script(interleave(pl).ops))
+            nvt_cases.append(Case('vtable_once_nested', s2.ops, True, '1:1'))
     gv = Gen(random.Random(ctx.seed + 31), max_depth=4, allow_nested=False)
     for k in range(60 if ctx.thorough else 12):
         s = Script(); s.extend(gv.build(root='table')); s.emit('nvt'); s.emit('evs')
@@ -497,6 +588,34 @@ def run(ctx):
             c.impl = a
             ctx.violation(crash_key(c), 'crash in vtable_once history: ' + a[:200], {'harness_line': c.impl_line()}); continue
         ta, tm = a.split(), m.split()
+        if c.klass == 'vtable_once_nested':
+            # per buffer (nest id at emit time): every vtable exactly once; vtable emits recognised by their shape (the histories of this
+            # family contain tables, offset vectors and buffers only: no other emit starts with its own length followed by a table size)
+            def vtables(tok):
+                out = {}
+                for e in ([] if tok == '-' else tok.split(',')):
+                    off, nest, hx_ = e.split(':'); b = bytes.fromhex(hx_); L = len(b)
+                    if L < 4: continue
+                    vs, ts = b[0] | b[1] << 8, b[2] | b[3] << 8
+                    if vs % 2 or vs < 4 or vs not in (L, L - 1) or ts < 4: continue
+                    ent = [b[i] | b[i + 1] << 8 for i in range(4, vs, 2)]
+                    if any(x != 0 and not (4 <= x < ts) for x in ent): continue
+                    out.setdefault(nest, []).append(bytes(b[:vs]))
+                return out
+            vi = vtables(ta[-1])
+            dup = [(n, v.hex()) for n, l_ in vi.items() for v in set(l_) if l_.count(v) > 1]
+            if dup:
+                ctx.violation('vtable-emitted-twice', 'the buffer with nest id %s contains the vtable %s %d times although no cache limit is set' % (
+                                  dup[0][0], dup[0][1], vi[dup[0][0]].count(bytes.fromhex(dup[0][1]))),
+                              {'harness_line': c.impl_line(), 'model_line': c.model_line(True), 'duplicates': dup[:5]})
+                continue
+            if ta[:-2] + ta[-1:] != tm[:-2] + tm[-1:]:
+                ctx.violation('corr:emit-stream', 'emit stream (references, nest ids, bytes) of the implementation differs from the model in a nested vtable history',
+                              {'harness_line': c.impl_line(), 'model_line': c.model_line(True)})
+            nm = tm[-2].split('/')
+            if len(nm) == 2 and nm[0] != nm[1]:
+                ctx.violation('corr:model-vtable-twice', 'the model emitted a vtable twice for one buffer: %s' % tm[-2], {'model_line': c.model_line(True)})
+            continue
         nv = ta[-2]
         if '/' in nv:
             n, d = nv.split('/')
